@@ -68,6 +68,7 @@ Fixpoint productive (d : sd) : bool :=
   | DF t => negb (zw t)
   | DSeq l => existsb productive l
   | DAry _ => true
+  | DLoop _ => true
   | DOption _ => true
   | DChoice _ a b => productive a && productive b
   | DExt k => negb (String.eqb k fixedbits)
@@ -78,6 +79,7 @@ Fixpoint sd_ok (d : sd) : bool :=
   | DF t => ary_ok t
   | DSeq l => forallb sd_ok l
   | DAry e => sd_ok e && productive e
+  | DLoop e => sd_ok e && productive e
   | DOption e => sd_ok e
   | DChoice _ a b => sd_ok a && sd_ok b
   | DPanic _ => false
@@ -89,6 +91,7 @@ Section SdInd.
   Hypothesis HF : forall t, P (DF t).
   Hypothesis HSeq : forall l, Forall P l -> P (DSeq l).
   Hypothesis HAry : forall e, P e -> P (DAry e).
+  Hypothesis HLoop : forall e, P e -> P (DLoop e).
   Hypothesis HOption : forall e, P e -> P (DOption e).
   Hypothesis HChoice : forall k a b, P a -> P b -> P (DChoice k a b).
   Hypothesis HExt : forall k, P (DExt k).
@@ -102,6 +105,7 @@ Section SdInd.
     | DSeq l => HSeq l ((fix f (l : list sd) : Forall P l :=
                            match l with [] => Forall_nil P | x :: t => Forall_cons x (sd_ind' x) (f t) end) l)
     | DAry e => HAry e (sd_ind' e)
+    | DLoop e => HLoop e (sd_ind' e)
     | DOption e => HOption e (sd_ind' e)
     | DChoice k a b => HChoice k a b (sd_ind' a) (sd_ind' b)
     | DExt k => HExt k
@@ -127,7 +131,7 @@ Section Total.
 
   Theorem sdr_fine : forall d, fine_sd d.
   Proof.
-    induction d as [t|l IH|e IH|e IH|k a b IHa IHb|k| |n|t|t] using sd_ind'; intros Hok s Hf; cbn [sd_ok productive sdr] in *.
+    induction d as [t|l IH|e IH|e IH|e IH|k a b IHa IHb|k| |n|t|t] using sd_ind'; intros Hok s Hf; cbn [sd_ok productive sdr] in *.
     - (* C06 field type *)
       destruct (read_f_fine fuel t Hok (zero_of t) s Hf) as [Q P]. split.
       + apply prog0_bind_gen; [exact Q|intros; apply ret_prog0].
@@ -146,6 +150,21 @@ Section Total.
       assert (P: prog s (run_flat (rd_ary fuel (fun _ : N => sdr ext oracle fuel e)) s)).
       { unfold rd_ary. apply prog_bind_l; [apply rd_varint_prog|]. intros l r Hr.
         destruct (l <? 0)%Z; [exact I|].
+        (* the element loop: every element consumes input *)
+        assert (L: forall f i len r', (List.length r' < fuel)%nat -> (List.length r' < f)%nat ->
+                   prog0 r' (run_flat (rep f (fun _ : N => sdr ext oracle fuel e) i len) r')).
+        { induction f as [|f IHf]; intros i len r' Hr1 Hr2; [lia|]. cbn [rep].
+          destruct (len <=? i); [apply ret_prog0|].
+          rewrite run_flat_bind_gen. destruct (IH Hoe r' Hr1) as [_ Pe]. specialize (Pe Hpe).
+          destruct (run_flat (sdr ext oracle fuel e) r') as [u r2| | |]; cbn [prog] in Pe; try tauto.
+          specialize (IHf (i + 1) len r2 ltac:(lia) ltac:(lia)).
+          destruct (run_flat (rep f _ (i + 1) len) r2); cbn [prog0] in *; try tauto. lia. }
+        apply L; lia. }
+      split; [apply prog_prog0, P|intros _; exact P].
+    - (* counted loop *)
+      apply andb_true_iff in Hok. destruct Hok as [Hoe Hpe].
+      assert (P: prog s (run_flat (l <- rd_varint ;; rep fuel (fun _ : N => sdr ext oracle fuel e) 0 (Z.to_N l)) s)).
+      { apply prog_bind_l; [apply rd_varint_prog|]. intros l r Hr.
         (* the element loop: every element consumes input *)
         assert (L: forall f i len r', (List.length r' < fuel)%nat -> (List.length r' < f)%nat ->
                    prog0 r' (run_flat (rep f (fun _ : N => sdr ext oracle fuel e) i len) r')).
